@@ -46,13 +46,22 @@ IsCont(L, i) == /\ L[i].kind = "text"
                 /\ \/ Width(L[i]) >= 5
                    \/ LET p == PrevText(L, i - 1) IN p > 0 /\ L[p].kind = "text" /\ L[p].amp
 
-(* expansion of repeat tokens in the canonical reading *)
-RECURSIVE Expand(_, _, _)
-Expand(ts, i, acc) ==
+(* expansion of data-card shorthand in the canonical reading (MCNP manual: nR repeats the preceding  *)
+(* entry n times, nI inserts n linearly interpolated entries between its neighbours, xM multiplies    *)
+(* the preceding entry by x, nJ jumps over n entries, which keep their default value - recorded in    *)
+(* the token as .exp, because the default depends on the card)                                        *)
+RECURSIVE Expand(_, _, _, _)
+Expand(ts, i, acc, lastval) ==
   IF i > Len(ts) THEN acc
-  ELSE IF ts[i].rep > 0 THEN Expand(ts, i + 1, acc \o [k \in 1..ts[i].rep |-> acc[Len(acc)]])
-  ELSE Expand(ts, i + 1, Append(acc, ts[i].id))
-Ids(l) == Expand(l.toks, 1, <<>>)
+  ELSE LET t == ts[i] IN
+       CASE t.kind = "r" -> Expand(ts, i + 1, acc \o [k \in 1..t.n |-> acc[Len(acc)]], lastval)
+         [] t.kind = "m" -> Expand(ts, i + 1, Append(acc, ToString(lastval * t.n)), lastval * t.n)
+         [] t.kind = "i" -> LET hi == ts[i + 1].val IN
+                            Expand(ts, i + 1, acc \o [k \in 1..t.n |-> ToString(lastval + (k * (hi - lastval)) \div (t.n + 1))],
+                                   lastval)
+         [] t.kind = "j" -> Expand(ts, i + 1, acc \o t.exp, lastval)
+         [] OTHER -> Expand(ts, i + 1, Append(acc, t.id), t.val)
+Ids(l) == Expand(l.toks, 1, <<>>, 0)
 Ws(l) == [k \in 1..Len(l.toks) |-> l.toks[k].w]
 
 (* cards of a deck: sequence of [block, ids, ws]; blocks counted by blank lines after the message block *)
@@ -69,7 +78,7 @@ ReadFrom(L, i, block, cards, msg) ==
 HasMessage(L) == Len(L) >= 1 /\ L[1].kind = "text" /\ Len(L[1].toks) >= 1 /\ L[1].toks[1].id = "message:"
 (* the first card of block 0 is the title line: it is not a card *)
 Cards(L) == Tail(ReadFrom(L, 1, IF HasMessage(L) THEN -1 ELSE 0, <<>>, HasMessage(L)))
-Read(L) == LET cs == Cards(L) IN [k \in 1..Len(cs) |-> [block |-> cs[k].block, ids |-> Expand(cs[k].toks, 1, <<>>)]]
+Read(L) == LET cs == Cards(L) IN [k \in 1..Len(cs) |-> [block |-> cs[k].block, ids |-> Expand(cs[k].toks, 1, <<>>, 0)]]
 (* the spelled tokens of each card, for comparison with the real get_cards() / Card.content() *)
 ReadSpelled(L) == LET cs == Cards(L) IN [k \in 1..Len(cs) |-> [j \in 1..Len(cs[k].toks) |-> cs[k].toks[j].w]]
 
@@ -113,8 +122,10 @@ AddDollar == /\ Step("dollar")
              /\ \E i \in CardIdx : ~lines[i].dollar /\ lines' = [lines EXCEPT ![i].dollar = TRUE]
 MessageLine == [kind |-> "text", lead |-> <<>>, amp |-> FALSE, dollar |-> FALSE, upper |-> FALSE, frozen |-> TRUE,
                 seps |-> << <<"b">> >>,
-                toks |-> << [id |-> "message:", w |-> "message:", alts |-> <<>>, rep |-> 0, ok |-> FALSE],
-                            [id |-> "outp=x", w |-> "outp=x", alts |-> <<>>, rep |-> 0, ok |-> FALSE] >>]
+                toks |-> << [id |-> "message:", w |-> "message:", alts |-> <<>>, rep |-> 0, ok |-> FALSE, val |-> 0,
+                             kind |-> "", n |-> 0, exp |-> <<>>, jok |-> FALSE],
+                            [id |-> "outp=x", w |-> "outp=x", alts |-> <<>>, rep |-> 0, ok |-> FALSE, val |-> 0,
+                             kind |-> "", n |-> 0, exp |-> <<>>, jok |-> FALSE] >>]
 BlankLine == [kind |-> "blank", lead |-> <<>>, toks |-> <<>>, seps |-> <<>>, amp |-> FALSE, dollar |-> FALSE, upper |-> FALSE,
               frozen |-> TRUE]
 AddMessage == /\ Step("message") /\ ~HasMessage(lines)
@@ -122,18 +133,43 @@ AddMessage == /\ Step("message") /\ ~HasMessage(lines)
 Respell == /\ Step("number")
            /\ \E i \in CardIdx : \E j \in 1..Len(lines[i].toks) : \E a \in 1..Len(lines[i].toks[j].alts) :
                 lines' = [lines EXCEPT ![i].toks[j].w = lines[i].toks[j].alts[a]]
-(* contract a run "x x" (two equal consecutive repeatable entries) into "x 1r" *)
+(* shorthand: contract entries of an IMP data card (integers) or the last row of a TR card *)
+Short(kind, n, w, exp) == [id |-> w, w |-> w, alts |-> <<>>, rep |-> 0, ok |-> FALSE, val |-> 0, kind |-> kind, n |-> n, exp |-> exp,
+                           jok |-> FALSE]
+Plain(t) == t.kind = "" /\ t.w = t.id
 Contract == /\ Step("repeat")
             /\ \E i \in CardIdx : \E j \in 2..Len(lines[i].toks) :
                  LET l == lines[i] IN
-                 /\ l.toks[j].rep = 0 /\ l.toks[j - 1].rep = 0 /\ l.toks[j].id = l.toks[j - 1].id
-                 /\ l.toks[j].alts # <<>> /\ l.toks[1].id = "imp:n"
-                 /\ lines' = [lines EXCEPT ![i].toks[j] = [id |-> "1r", w |-> "1r", alts |-> <<>>, rep |-> 1, ok |-> FALSE]]
+                 /\ l.toks[1].id = "imp:n" /\ j >= 3
+                 /\ Plain(l.toks[j]) /\ Plain(l.toks[j - 1]) /\ l.toks[j].id = l.toks[j - 1].id
+                 /\ lines' = [lines EXCEPT ![i].toks[j] = Short("r", 1, "1r", <<>>)]
+ContractM == /\ Step("multiply")
+             /\ \E i \in CardIdx : \E j \in 3..Len(lines[i].toks) :
+                  LET l == lines[i] IN
+                  /\ l.toks[1].id = "imp:n"
+                  /\ Plain(l.toks[j]) /\ Plain(l.toks[j - 1]) /\ l.toks[j - 1].val > 0 /\ l.toks[j].val = 2 * l.toks[j - 1].val
+                  /\ lines' = [lines EXCEPT ![i].toks[j] = Short("m", 2, "2m", <<>>)]
+ContractI == /\ Step("interpolate")
+             /\ \E i \in CardIdx : \E j \in 3..(Len(lines[i].toks) - 1) :
+                  LET l == lines[i] IN
+                  /\ l.toks[1].id = "imp:n"
+                  /\ Plain(l.toks[j - 1]) /\ Plain(l.toks[j]) /\ Plain(l.toks[j + 1])
+                  /\ l.toks[j].val - l.toks[j - 1].val = l.toks[j + 1].val - l.toks[j].val
+                  /\ l.toks[j].val # l.toks[j - 1].val
+                  /\ lines' = [lines EXCEPT ![i].toks[j] = Short("i", 1, "1i", <<>>)]
+(* the last row of the rotation matrix of a TR card may be left to the default (3J) *)
+ContractJ == /\ Step("jump")
+             /\ \E i \in CardIdx :
+                  LET l == lines[i]  n == Len(l.toks) IN
+                  /\ n = 13 /\ l.toks[1].jok /\ \A k \in 11..13 : Plain(l.toks[k])
+                  /\ lines' = [lines EXCEPT ![i].toks = SubSeq(l.toks, 1, 10)
+                                   \o << Short("j", 3, "3j", <<l.toks[11].id, l.toks[12].id, l.toks[13].id>>) >>,
+                                            ![i].seps = SubSeq(l.seps, 1, 10)]
 Emit == /\ depth >= 1 /\ last # "emitted"
         /\ PrintT(ToJson([lines |-> lines, depth |-> depth, last |-> last, spelled |-> ReadSpelled(lines)]))
         /\ last' = "emitted" /\ UNCHANGED <<lines, depth>>
 Rewrite == ChangeCase \/ WidenBlanks \/ SplitIndent \/ SplitAmp \/ InsertComment \/ AddDollar \/ AddMessage
-           \/ Respell \/ Contract
+           \/ Respell \/ Contract \/ ContractM \/ ContractI \/ ContractJ
 Next == (last # "emitted" /\ Rewrite) \/ Emit
 Spec == Init /\ [][Next]_vars
 
